@@ -2,16 +2,19 @@ package httpserver
 
 // Harness for C12 (DESIGN 5/C12): the route cache is transparent.
 //   TestVerifC12Replay - replays TLC-generated behaviours (configuration, requests with the
-//                        contract's predicted outcome, purges) on a real mux with the cache on
-//                        and on its cache-less twin (MBT)
+//                        contract's predicted outcome, purges, changes of the table behind the
+//                        MuxMapper) on a real mux with the cache on and on its cache-less twin (MBT)
 //   TestVerifC12Trace  - seeded random configurations (with IP filters) and long request
-//                        sequences over a small key space, cache sizes 1, 2 and 64, observations
-//                        of both muxes recorded for TLC trace validation (TV)
+//                        sequences over a small key space, cache sizes 1, 2 and 64, now and then
+//                        a backend deleted, created or replaced behind the MuxMapper of both
+//                        muxes, observations of both recorded for TLC trace validation (TV)
 // When the cached mux answers differently, the harness looks for the earlier request that is
 // responsible (fresh cached mux, that request, then this one): diagnosis only, used to tell the
 // defect classes apart.
 
 import (
+	"fmt"
+	"math/rand"
 	"strings"
 	"testing"
 
@@ -40,8 +43,13 @@ func TestVerifC12Replay(t *testing.T) {
 		}
 		plain, _ := rhNewMux(cfg, 0, false)
 		var hist []vx.M
+		mapsteps := []interface{}{} // changes of the mapper's table so far
 		for si, st := range beh[1:] {
 			switch vx.Str(st["a"]) {
+			case "unmap", "map", "remap":
+				cached.rhMapStep(st)
+				plain.rhMapStep(st)
+				mapsteps = append(mapsteps, st)
 			case "purge":
 				cached.purge()
 				hist = nil
@@ -57,7 +65,7 @@ func TestVerifC12Replay(t *testing.T) {
 				if !rhSame(oc, exp) || !rhSame(ou, exp) {
 					mism++
 					rec := vx.M{"k": "mismatch", "b": bi, "step": si + 1, "cs": cs, "cfg": cfg, "q": q, "exp": exp, "oc": oc, "ou": ou,
-						"own": st["own"], "why": st["why"], "impl": st["impl"], "spec": cached.spec, "cul": []interface{}{}}
+						"own": st["own"], "why": st["why"], "impl": st["impl"], "spec": cached.spec, "cul": []interface{}{}, "mapsteps": mapsteps}
 					if p, ok := rhCulprit(cfg, cs, hist, q, oc); ok {
 						rec["cul"] = []interface{}{p}
 						for _, h := range beh[1:] { // the contract's owner of the culprit
@@ -84,7 +92,7 @@ func TestVerifC12Replay(t *testing.T) {
 // base request is rewritten to.
 // seenAs(q) is the path the backend of q sees (rewriteTarget), "" when q is not dispatched: the pool also holds, for a
 // base request that is rewritten, the request for the rewritten URL itself (same host and method).
-func c12Pool(r interface{ Intn(int) int }, base []vx.M, clients []vx.M, seenAs func(vx.M) string, otherHost func() string) []vx.M {
+func c12Pool(r *rand.Rand, base []vx.M, clients []vx.M, seenAs func(vx.M) string, otherHost func() string) []vx.M {
 	pool := []vx.M{}
 	clone := func(q vx.M) vx.M {
 		c := vx.M{}
@@ -106,6 +114,10 @@ func c12Pool(r interface{ Intn(int) int }, base []vx.M, clients []vx.M, seenAs f
 		}
 		h["hdr"] = hdr
 		pool = append(pool, h)
+		// two requests for the URL of q whose header values collide once folded into one string
+		if r.Intn(2) == 0 {
+			pool = append(pool, rgHdrPartners(r, q)...)
+		}
 		// the URL q is rewritten to, asked for literally
 		if p := seenAs(q); p != "" && p != vx.Chars(q["path"]) && strings.HasPrefix(p, "/") {
 			v := clone(q)
@@ -156,6 +168,21 @@ func c12Pool(r interface{ Intn(int) int }, base []vx.M, clients []vx.M, seenAs f
 		}
 	}
 	return pool
+}
+
+// c12Backends: the backend names the entries of the configuration point to (existing or not), in order.
+func c12Backends(cfg vx.M) []string {
+	out := []string{}
+	seen := map[string]bool{}
+	for _, rv := range vx.List(cfg["rules"]) {
+		for _, ev := range vx.List(rv.(vx.M)["paths"]) {
+			if b := vx.Str(ev.(vx.M)["backend"]); !seen[b] {
+				seen[b] = true
+				out = append(out, b)
+			}
+		}
+	}
+	return out
 }
 
 func TestVerifC12Trace(t *testing.T) {
@@ -219,7 +246,38 @@ func TestVerifC12Trace(t *testing.T) {
 		probe.m.close()
 		n := minLen + r.Intn(maxLen-minLen+1)
 		var hist []vx.M
+		backends := c12Backends(cfg)
+		changes := 0
 		for i := 0; i < n; i++ {
+			// now and then the table behind the MuxMapper changes (a backend deleted, created - also
+			// one that did not exist at the start - or replaced by a new instance), for both muxes, without
+			// a reload of either
+			if len(backends) > 0 && r.Intn(12) == 0 {
+				changes++
+				b := backends[r.Intn(len(backends))]
+				st := vx.M{"a": "remap", "be": b, "inst": fmt.Sprintf("%s#%d", b, changes)}
+				if _, ok := cached.rec.known[b]; !ok {
+					st["a"] = "map"
+				} else if r.Intn(2) == 0 {
+					st["a"] = "unmap"
+				}
+				cached.rhMapStep(st)
+				plain.rhMapStep(st)
+				names, insts := []interface{}{}, []interface{}{}
+				for _, b := range backends {
+					if l, ok := plain.rec.known[b]; ok {
+						names = append(names, b)
+						insts = append(insts, l)
+					}
+				}
+				now := vx.M{}
+				for k, v := range cfg {
+					now[k] = v
+				}
+				now["mapper"] = names
+				cfg = now
+				w.Raw(vx.M{"ev": "cfg", "cfg": cfg, "cs": cs, "insts": insts, "same": true, "step": st})
+			}
 			q := pool[r.Intn(len(pool))]
 			oc := rhServe(cached, q)
 			ou := rhServe(plain, q)
